@@ -212,6 +212,24 @@ def sco_locked(form: int, v5: bool, prop: int, to_none: bool) -> bool:
 
 
 def run_sco_case(form, v5, prop, to_none):
+    # whatever this call did, it is over: legal changes to other objects are applied as in a fresh process (nothing stays locked)
+    return _run_sco_case(form, v5, prop, to_none) and _legal_changes_still_apply()
+
+
+def _legal_changes_still_apply():
+    try:
+        m = stix2.v21.Malware(name="m", is_family=False).new_version(name="n2")
+        t = versioning.new_version({"type": "tool", "id": "tool--" + gen.UU, "created": "2020-01-01T00:00:00.000Z", "modified": "2020-01-01T00:00:00.000Z",
+                                    "name": "t", "labels": ["x"]}, name="t2")
+        f = versioning.new_version(stix2.v21.File(id="file--" + gen.UU, name="a", created="2020-01-01T00:00:00.000Z", modified="2020-01-01T00:00:00.000Z", revoked=False,
+                                                  allow_custom=True), hashes={"MD5": "0" * 32}, extensions={"ntfs-ext": {"sid": "s"}}, allow_custom=True)
+        c = stix2.v20.Campaign(name="c").new_version(name="c2")
+    except (TypeError, STIXError, ValueError):
+        return False
+    return m.name == "n2" and t["name"] == "t2" and "hashes" in f and "extensions" in f and c.name == "c2"
+
+
+def _run_sco_case(form, v5, prop, to_none):
     """2.1 SCOs become versionable when they carry (custom) created / modified / revoked; with a deterministic (UUIDv5) id every change to an
     id-contributing property -- altering, removing, or ADDING one that was absent -- is refused; other changes give a new version with the same id"""
     common = dict(name="data.txt", size=3, mime_type="text/plain", created="2020-01-01T00:00:00.000Z", modified="2020-01-01T00:00:00.000Z", revoked=False, allow_custom=True)
@@ -234,6 +252,51 @@ def run_sco_case(form, v5, prop, to_none):
     if v5 and contributing:
         return False                                 # silently accepted: the id no longer matches the id-contributing content
     return n["id"] == f.id and (n.get(name) is None) == to_none
+
+
+# ---------------------------------------------------------------- change sets named through the 'custom_properties' argument
+CP_OBJECTS = [lambda: stix2.v21.Malware(name="m", is_family=False, created=BASE, modified=BASE),
+              lambda: stix2.v21.Malware(name="m", is_family=False, created=BASE, modified=BASE, created_by_ref=CREATOR),
+              lambda: stix2.v20.Tool(name="t", labels=["x"], created=BASE, modified=BASE),
+              lambda: stix2.v20.Tool(name="t", labels=["x"], created=BASE, modified=BASE, created_by_ref=CREATOR),
+              lambda: stix2.v21.File(name="f", created=BASE, modified=BASE, revoked=False, allow_custom=True)]
+CP_CHANGES = [("id", "malware--" + gen.UU2), ("type", "campaign"), ("created", "2019-01-01T00:00:00.000Z"), ("created_by_ref", "identity--" + gen.UU2),
+              ("modified", "2019-06-01T00:00:00.000Z"), ("modified", "2020-01-01T00:00:00.000Z"), ("revoked", True), ("x_note", "n"), ("hashes", {"MD5": "0" * 32}), ("name", "other")]
+
+
+def through_custom_properties(oi: int, ci: int, also_kwarg: bool) -> bool:
+    """
+    pre: 0 <= oi < len(CP_OBJECTS) and 0 <= ci < len(CP_CHANGES)
+    post: _
+    """
+    oi, ci, also_kwarg = pick(oi, len(CP_OBJECTS)), pick(ci, len(CP_CHANGES)), pickb(also_kwarg)
+    with Native():
+        ok = run_cp_case(oi, ci, also_kwarg)
+    V.reached()
+    return ok
+
+
+def run_cp_case(oi, ci, also_kwarg):
+    """new_version(obj, custom_properties={p: v}) is one more way to name a property: either it is refused, or the result keeps type, id, created and
+    creator (also a creator that was absent), has a strictly later modified, and a genuinely custom name is applied"""
+    old = CP_OBJECTS[oi]()
+    p, v = CP_CHANGES[ci]
+    kw = {"description": "d"} if also_kwarg else {}
+    try:
+        new = old.new_version(custom_properties={p: v}, **kw)
+    except (TypeError, STIXError, ValueError):
+        return p != "x_note"
+    for k in ("type", "id", "created", "created_by_ref"):
+        if new.get(k) != old.get(k):
+            return False
+    written = [utils.parse_into_datetime(json.loads(o.serialize())["modified"]) for o in (old, new)]
+    if not written[1] > written[0] or not new["modified"] > old["modified"]:
+        return False
+    if p == "x_note" and new.get("x_note") != "n":
+        return False
+    if old["type"] == "file" and str(old["id"])[-22] == "5" and p in ("hashes", "name") and new.get(p) != old.get(p):
+        return False                       # an id-contributing property changed under a deterministic id
+    return True
 
 
 # ---------------------------------------------------------------- L2/L4: every versionable class, real objects, clock positions around old modified
